@@ -95,6 +95,9 @@ class W7(gen.World):
             mt = MT_OCI_I
         d = dg("sha256", body)
         ref = d if rng.random() < 0.6 else rng.choice(["sig", "sbom", "att%d" % rng.randrange(2)])
+        if rng.random() < 0.2:
+            # pushed (and later deleted) under another algorithm's digest: that digest is the one the response lists
+            d = ref = dg(rng.choice(["sha512", "sha384"]), body)
         self.add(manifest_put(repo, ref, body, ctype=mt))
         self.arts[repo].append((d, len(body), mt))
         # artifacts can be subjects themselves
@@ -106,7 +109,8 @@ class W7(gen.World):
         subs = sorted({json.loads(s["body"].decode("latin-1"))["subject"]["digest"] for s in self.steps
                        if s["kind"] == "mput" and s["repo"] == repo and b'"subject"' in s["body"]})
         for s in subs + [dg("sha256", b"no-referrers-at-all")]:
-            self.add(ref_walk(repo, s))
+            if self.rng.random() < 0.8:
+                self.add(ref_walk(repo, s))
             if self.rng.random() < 0.5:
                 flt = self.rng.choice(ATS[:2] + [MT_EMPTY, MT_CFG, "nomatch"])
                 self.add(ref_walk(repo, s, flt))
@@ -237,10 +241,17 @@ def make_cases(ctx, first):
         for repo in w.repos:
             for _ in range(rng.randrange(1, 3)):
                 w.base(repo)
+        heavy = i % 4 == 3
+        hsubj = w.subject(w.repos[0]) if heavy else None
         for rnd in range(rng.randrange(3, 7)):
             repo = w.repo()
             r = rng.random()
-            if r < 0.6:
+            if heavy and r < 0.7:
+                # many referrers of one subject: the filtered lists are split into pages as well as the whole list
+                repo = w.repos[0]
+                for _ in range(rng.randrange(3, 8)):
+                    w.artifact(repo, subject=hsubj)
+            elif r < 0.6:
                 s = None
                 for _ in range(rng.randrange(1, 5)):
                     s = w.artifact(repo, subject=None if rng.random() < 0.4 else None)
